@@ -6,6 +6,7 @@ CONSTANTS
   MaxOps = 5
   ShareOnReverse = FALSE
   InitKinds = {"min", "max"}
+  InitItems <- InitItemsDef
 INVARIANT Emit
 VIEW GView
 CHECK_DEADLOCK FALSE
